@@ -354,7 +354,17 @@ impl Session<'_> {
                 Ok(None)
             }
             DoesNotExist => Ok(None),
-            Unchanged { state, .. } | Changed { state } => Ok(state.remove(key)),
+            Changed { state } => Ok(state.remove(key)),
+            Unchanged { state, .. } => {
+                let Some(removed) = state.remove(key) else {
+                    return Ok(None);
+                };
+                // The in-memory state has diverged from the record in the store:
+                // mark it as changed so that `sync` persists the removal.
+                let state = std::mem::take(state);
+                self.server_state = new_cell_with(Some(ServerState::Changed { state }));
+                Ok(Some(removed))
+            }
         }
     }
 
